@@ -448,7 +448,7 @@ def analyse_body(facts, rep, b, is_parser, rules, reach=None):
                     cd = control_deps(b)
                 if bounded_by_len(b, bb, term, cd, P) or capped_by_len(term, P):
                     rep.ok(R3, {"fn": b.name, "alloc": fmt(norm(term))[:60], "bounded": True})
-                elif unresolved_len_guard(b, bb, cd):
+                elif unresolved_len_guard(b, bb, cd, (term,)):
                     rep.inconc(R3, "%s allocates %s after a comparison with the buffer length whose other side is a value this analysis did not resolve" % (b.name.rsplit("::", 1)[-1], fmt(norm(term))[:60]))
                 else:
                     rep.violation(R3, b.name, "alloc:%s" % fmt(norm(term))[:50], "%s allocates %s bytes/elements taken from the input (up to %s) before checking it against the buffer" % (b.name.rsplit("::", 1)[-1], fmt(norm(term))[:70], hexs(hi)), where)
@@ -533,7 +533,7 @@ def analyse_body(facts, rep, b, is_parser, rules, reach=None):
                 if overflow_guarded(b, bb, op, a, c, aty, cd, P):
                     rep.count("overflow_discharged_by_guard")
                     continue
-                if unresolved_len_guard(b, bb, cd):
+                if unresolved_len_guard(b, bb, cd, (a, c)):
                     rep.inconc(R2, "%s computes %s on input-derived values after a comparison with the buffer length whose other side was not resolved" % (b.name.rsplit("::", 1)[-1], op))
                     continue
                 if "input" in tags:
@@ -704,10 +704,37 @@ def assertion_status(b, bb, cd, P):
     return bool(proven), tags
 
 
-def unresolved_len_guard(b, bb, cd):
+def unresolved_len_guard(b, bb, cd, terms=()):
     """a dominating comparison with a length whose other side is a local with several definitions (the result of an
-    expanded helper, a value assembled on several paths): it may well bound the value in question.  Likewise a
-    comparison with a length made inside a closure of this function (`.filter(|v| v + K <= bytes.len())`)."""
+    expanded helper, a value assembled on several paths) *that the value in question is computed from*: it may well
+    bound it.  (A loop condition `out.len() < size` says nothing about `out.len() - disp`.)  Likewise a comparison
+    with a length made inside a closure of this function (`.filter(|v| v + K <= bytes.len())`)."""
+    stake = {x[1] for t_ in terms for x in walk(t_) if x[0] == "var"}
+
+    def reads(t_, seen, depth=0):
+        """the stream reads (callee, block) a term is computed from, through multiply-defined locals"""
+        out = set()
+        for x in walk(t_):
+            if x[0] == "call" and "read_" in x[1].rsplit("::", 1)[-1] and len(x) > 3:
+                out.add((x[1], x[3]))
+            elif x[0] == "var" and x[1] not in seen and depth < 6:
+                seen.add(x[1])
+                for d_ in b.defs().get(x[1], []):
+                    try:
+                        if d_[2] == "assign":
+                            out |= reads(b.term_of_rvalue(d_[3]["rv"]), seen, depth + 1)
+                        elif d_[2] == "call":
+                            nm_ = callee_names(d_[3])[1] or callee_names(d_[3])[0] or ""
+                            if "read_" in nm_.rsplit("::", 1)[-1]:
+                                out.add((nm_, d_[0]))
+                            for a_ in d_[3]["args"]:
+                                out |= reads(b.term_of_operand(a_), seen, depth + 1)
+                    except Exception:
+                        pass
+        return out
+    stake_reads = set()
+    for t_ in terms:
+        stake_reads |= reads(t_, set())
     try:
         for cb in b.facts.closures_of(b):
             for bi, si, st in cb.stmts():
@@ -720,8 +747,10 @@ def unresolved_len_guard(b, bb, cd):
     for op, lhs, rhs in dominating_bounds(b, bb, cd):
         for side, other in ((lhs, rhs), (rhs, lhs)):
             is_len = any(x[0] == "call" and x[1].rsplit("::", 1)[-1] in ("len", "size") for x in walk(other))
-            if is_len and any(x[0] == "var" for x in walk(side)):
+            if is_len and any(x[0] == "var" and (not terms or x[1] in stake) for x in walk(side)):
                 return True
+            if is_len and terms and any(x[0] == "var" for x in walk(side)) and stake_reads & reads(side, set()):
+                return True     # the unresolved side is computed from the same stream read as the value in question
     return False
 
 
